@@ -41,15 +41,20 @@ try:
         t = subprocess.run(['/venv/bin/python', '-m', 'pytest', '-q', '-p', 'no:cacheprovider', 'tests'], cwd=wt, env=env, capture_output=True, text=True)
         out['tests_pass'] = t.returncode == 0
         out['tests_tail'] = t.stdout.strip().splitlines()[-1] if t.stdout.strip() else ''
-        d1 = subprocess.run(['/venv/bin/python', os.path.join(seed, 'demo.py')], cwd=wt, env=env, capture_output=True, text=True, timeout=600)
+        # the demonstration is run from <worktree>/_seed/, where its author ran it (some locate notebooks/ relative to it)
+        os.makedirs(os.path.join(wt, '_seed'), exist_ok=True)
+        demo = os.path.join(wt, '_seed', 'demo.py')
+        shutil.copy(os.path.join(seed, 'demo.py'), demo)
+        d1 = subprocess.run(['/venv/bin/python', demo], cwd=wt, env=env, capture_output=True, text=True, timeout=600)
         out['demo_with_change'] = d1.returncode
         # (no git stash here: the stash list is shared by all worktrees of a repository)
         subprocess.check_call(['git', '-C', wt, 'diff', '--output', os.path.join(wt, '.applied.diff')])
         subprocess.check_call(['git', '-C', wt, 'checkout', '-q', '--', '.'])
-        d0 = subprocess.run(['/venv/bin/python', os.path.join(seed, 'demo.py')], cwd=wt, env=env, capture_output=True, text=True, timeout=600)
+        d0 = subprocess.run(['/venv/bin/python', demo], cwd=wt, env=env, capture_output=True, text=True, timeout=600)
         out['demo_without_change'] = d0.returncode
         subprocess.check_call(['git', '-C', wt, 'apply', '--whitespace=nowarn', os.path.join(wt, '.applied.diff')])
         os.remove(os.path.join(wt, '.applied.diff'))
+        shutil.rmtree(os.path.join(wt, '_seed'), ignore_errors=True)
         evd = tempfile.mkdtemp(prefix='vsev-', dir='/tmp')
         out['checks'] = {}
         for p in props:
